@@ -23,6 +23,9 @@ ASSUMPTIONS = ["metadata rows are opaque: the model carries one tag list per ele
 SC = 10**9
 
 
+EXTRA_MODULES = ["C13GroupBy"]
+
+
 def rows_of(ep, cols):
     """metadata rows of a real IntervalSet as tuples over `cols`; None when it has none of them"""
     have = [c for c in cols if c in ep.metadata_columns]
@@ -395,6 +398,7 @@ def groupby_cases(ctx, n_cases):
     overwritten (set_info, item assignment, attribute assignment) between calls, a second column is grouped jointly - the groups
     are those of the metadata the object carries NOW, and the elements returned for a group are the ones tagged with it."""
     rng = ctx.rng
+    lines, metas = [], []
     for k in range(n_cases):
         n = rng.randint(2, 6)
         kind = ("iset", "frame", "group")[k % 3]
@@ -451,12 +455,17 @@ def groupby_cases(ctx, n_cases):
             got = {str(v): [x if isinstance(x, str) else int(x) for x in list(ix)] for v, ix in G.items()}
             if got != want:
                 ctx.fail("oracle", "groupby('cond') is not the grouping of the metadata the object carries now", rec, impl=got, expected=want)
+            # the same call through the Lean model (`groupBy`, PynModel/Core/GroupBy.lean): categories coded a,b,c -> 0,1,2; positions -> ids
+            code = ["abc".index(x) for x in cond]
+            lines.append("groupby %s" % enc(code)); metas.append((rec, "groupby", None, got, ids))
             for v in want:
                 try:
                     R = obj.groupby("cond", get_group=v)
                 except Exception as e:
                     ctx.fail("oracle", "groupby(get_group=%r) raised %r" % (v, e), rec); continue
                 wt = [tags[i] for i in range(n) if cond[i] == v]
+                lines.append("getgroup %s %s %d" % (enc(tags), enc(["abc".index(x) for x in cond]), "abc".index(v)))
+                metas.append((dict(rec, get_group=v), "getgroup", None, data_tags(R), ids))
                 if data_tags(R) != wt or elem_tags(R) != wt or list(R.metadata["cond"].values) != [v] * len(wt):
                     ctx.fail("oracle", "groupby(get_group=%r): elements / metadata of the group" % v, rec,
                              impl=dict(data=data_tags(R), meta=elem_tags(R), cond=[str(x) for x in R.metadata["cond"].values]), expected=wt)
@@ -474,6 +483,7 @@ def groupby_cases(ctx, n_cases):
                 got2 = {"%s|%d" % (a, b): [x if isinstance(x, str) else int(x) for x in list(ix)] for (a, b), ix in G2.items()}
                 if got2 != want2:
                     ctx.fail("oracle", "groupby(['cond', 'second']) is not the joint grouping of the current metadata", rec, impl=got2, expected=want2)
+                lines.append("groupby2 %s %s" % (enc(code), enc(c2))); metas.append((rec, "groupby2", None, got2, ids))
             # a derived object (selection) groups by ITS rows
             if step == 3 and n >= 3 and kind != "frame":
                 sub_ids = ids[1:]
@@ -484,6 +494,19 @@ def groupby_cases(ctx, n_cases):
                     ws.setdefault(cond[i], []).append(ids[i] if kind == "group" else j)
                 if gs != ws:
                     ctx.fail("oracle", "groupby on a selection of the object is not the grouping of the selected rows", rec, impl=gs, expected=ws)
+    out = ctx.lean.run(lines) if ctx.lean else None
+    if out is not None:
+        for (rec, op, _, got, ids), o in zip(metas, out):
+            if op == "getgroup":
+                m = [] if o == "-" else [int(x) for x in o.split(".")] if not o.startswith("ERR") else o
+            else:
+                m = {}
+                for part in (o.split(";") if o else []):
+                    kk, ix = part.split(":")
+                    key = "abc"[int(kk)] if op == "groupby" else "%s|%d" % ("abc"[int(kk.split(".")[0])], int(kk.split(".")[1]))
+                    m[key] = [] if ix == "-" else [ids[int(x)] for x in ix.split(".")]
+            if m != got:
+                ctx.fail("corr", "%s != model (groupBy on the metadata carried at the time of the call)" % op, rec, impl=got, model=m)
 
 
 def run(ctx):
